@@ -156,6 +156,18 @@ func (u *PsipURI) AdjustOffs(newpos PField) bool {
 		return false
 	}
 	start := u.Scheme.Offs
+	// the new location must have room up to the end of the last component,
+	// delimiters between the components included
+	need := u.Scheme.Len
+	for _, f := range [...]PField{u.User, u.Pass, u.Host, u.Port,
+		u.Params, u.Headers} {
+		if f.Offs != 0 && f.Offs+f.Len-start > need {
+			need = f.Offs + f.Len - start
+		}
+	}
+	if need > newpos.Len {
+		return false
+	}
 	last := offs
 	u.Scheme.Offs = offs
 	if u.User.Offs != 0 {
